@@ -97,7 +97,7 @@ def job(g, fn, tier, rows=None):
                         name = "%s/H%d_%d_%d" % (pk, i, j, k)
                         try:
                             with T.time_budget(budget):
-                                v = c04.decide(T.Sub(Hm[j][i * n + k], T.diff(J[i][j], "a%d" % k)), g, a, p, reg, asm, res, tol=TOL)
+                                v = c04.decide(T.Sub(Hm[j][i * n + k], T.diff(J[i][j], "a%d" % k)), g, a, p, reg, asm, res, tol=TOL / 2)
                         except T.PolyTooBig:
                             v = solver.Verdict("undecided", "normal form too large / time budget")
                         (res.add(name, v) if v.status == "holds" else bad.append((name, v)))
@@ -110,7 +110,7 @@ def job(g, fn, tier, rows=None):
                         name = "%s/JDJ%d_%d_%d" % (pk, k, i, j)
                         try:
                             with T.time_budget(budget):
-                                v = c04.decide(T.Add(L[i][j], T.diff(J[i][j], "a%d" % k)), g, a, p, reg, asm, res, tol=TOL)
+                                v = c04.decide(T.Add(L[i][j], T.diff(J[i][j], "a%d" % k)), g, a, p, reg, asm, res, tol=TOL / 2)
                         except T.PolyTooBig:
                             v = solver.Verdict("undecided", "normal form too large / time budget")
                         (res.add(name, v) if v.status == "holds" else bad.append((name, v)))
@@ -127,14 +127,55 @@ def job(g, fn, tier, rows=None):
                 # key by how it was found: a symbolic verdict 'violated' (formula wrong) vs. only the native replay missing the tolerance
                 sym = any(v.status == "violated" and "not reproduced" not in v.how and "budget" not in v.how and v.how.startswith("z3") for _, v in bad)
                 rot = max([abs(w["inputs"][do + i]) for blk, ro, do, mo in O.group_blocks(g) for i in blk.rot] + [0.0])
-                region = "rotnorm<1e-2" if rot < 1e-2 else "generic"
+                rn = math.sqrt(sum(w["inputs"][do + i] ** 2 for blk, ro, do, mo in O.group_blocks(g) for i in blk.rot))
+                region = "below-switch" if rn * rn < 1e-8 else ("above-switch" if rn < 1e-2 else "generic")
                 vkey = "%s/%s" % (key, "formula" if sym else "native-precision/" + region)
                 if not any(x["key"] == vkey for x in res.violations):
                     res.violations.append({"key": vkey, "what": "%s: %s" % (vkey, w["what"]), "replay": w})
     if not nok:
         res.errors.append(key + ": vacuous")
     res.axioms.add("d2r_exp block i (j,k) = d/da_k J_ij; d2r_expinv via J D_k J = -dJ/da_k (J = C04 oracle)")
+    if (rows is None or 0 in rows) and g.name in ("SO3", "SE2", "SE3"):
+        precision_scan(res, h, t, g, fn, left, inv, key, tier)
     return res
+
+
+def precision_scan(res, h, t, g, fn, left, inv, key, tier):
+    """SUPPLEMENTARY (not the deciding step, never turns anything into 'holds'): the symbolic layer is exact arithmetic and cannot see
+    floating-point cancellation next to the series switch, so the native routine is replayed on a fixed grid of rotation norms on both sides
+    of the switch x {moderate, large} translations against the 80-digit central-difference reference; a reproduced miss of the 1e-5 tolerance is
+    a violation keyed by side of the switch."""
+    mp = check.mpmath()
+    n = g.dof
+    r = random.Random(11)
+    grid = [(0.3e-4, "below-switch"), (0.9e-4, "below-switch"), (1.0001e-4, "above-switch"), (3e-4, "above-switch")]
+    if tier == "thorough":
+        grid += [(1e-5, "below-switch"), (1.5e-4, "above-switch"), (1e-3, "above-switch"), (1e-2, "above-switch")]
+    worst = {}
+    npts = 0
+    for th, side in grid:
+        for ts in ((1000.0,) if g.name == "SE3" and tier == "quick" else (1.0, 1000.0)):
+            a = [r.uniform(-ts, ts) for _ in range(n)]
+            idx = list(g.rot)
+            nn = math.sqrt(sum(a[i] ** 2 for i in idx)) or 1.0
+            for i in idx:
+                a[i] = a[i] / nn * th
+            out = h.native(t + "_" + fn, a, n ** 3)
+            H = mp_hess_ref(g, a, left, inv)
+            sc = max([abs(H[j][c]) for j in range(n) for c in range(n * n)] + [mp.mpf(1)])
+            e = max((float(abs(mp.mpf(out[j * n * n + c]) - H[j][c]) / sc) if out[j * n * n + c] == out[j * n * n + c] else float("inf")) for j in range(n) for c in range(n * n))
+            npts += 1
+            if e > worst.get(side, (0, None))[0]:
+                worst[side] = (e, a, out)
+    for side, (e, a, out) in worst.items():
+        if not (e <= TOL):
+            vkey = "%s/native-precision/%s" % (key, side)
+            res.violations.append({"key": vkey, "what": "%s: native %s(a) is %.3g relative off the 80-digit central-difference Hessian (tolerance %g) at rotation norm %.3g, a=%r"
+                                   % (vkey, fn, e, TOL, math.sqrt(sum(a[i] ** 2 for i in g.rot)), a),
+                                   "replay": {"property": PID, "key": vkey, "tu_name": h.name, "tu_text": h.text, "fn": t + "_" + fn, "inputs": a, "nout": n ** 3, "native": out, "err": e,
+                                              "tol": TOL, "obligation": "native precision scan", "lhs": "native", "rhs": "mp reference"}})
+            res.add_raw("%s/native-precision-scan/%s" % (key, side), "violated", "native replay vs 80-digit reference: %.3g" % e)
+    res.notes.append("%s: supplementary native precision scan, %d points, worst %s" % (key, npts, {k_: "%.2e" % v_[0] for k_, v_ in worst.items()}))
 
 
 def native_witness(h, t, g, fn, sampler, left, inv, ntry=3):
@@ -219,7 +260,7 @@ def job_rminus(g, tier):
         for name, term in obl:
             try:
                 with T.time_budget(budget):
-                    v = c04.decide(term, g, a, p, reg, asm, res, tol=TOL)
+                    v = c04.decide(term, g, a, p, reg, asm, res, tol=TOL / 2)
             except T.PolyTooBig:
                 v = solver.Verdict("undecided", "normal form too large / time budget")
             if v.status == "holds":
